@@ -7,10 +7,13 @@ import (
 	"sort"
 	"strings"
 
-	pboutput "github.com/streamingfast/substreams/storage/execout/pb"
 	"testing"
 
+	"github.com/streamingfast/substreams/orchestrator/loop"
+	pboutput "github.com/streamingfast/substreams/storage/execout/pb"
+
 	"verif/ev"
+	"verif/world"
 )
 
 // TestDebugReplay prints what a saved C01 case delivers (development aid).
@@ -90,4 +93,66 @@ func TestDebugC07(t *testing.T) {
 		}
 		os.RemoveAll(dir)
 	}
+}
+
+// TestDebugSched runs the first request of a saved C01 case on the owned scheduler loop, first-in first-out, and
+// prints the scheduler states after every message (development aid).
+func TestDebugSched(t *testing.T) {
+	var c c01Case
+	ok, err := ev.LoadReplay("C01", "Strategies", &c)
+	if !ok || err != nil {
+		t.Skip("no replay")
+	}
+	dir := newDir()
+	defer os.RemoveAll(dir)
+	run := c.Runs[0]
+	cfg := &world.Config{Dir: dir, Seg: c.Seg, Workers: run.Workers, Final: run.Final, Steps: world.LinearChain(c.Head)}
+	o, initCmd, err := world.BuildOwned(c.Prog.Modules(), world.Request{Prod: run.Prod, Start: int64(run.Start), Stop: run.Stop, Output: run.Output}, cfg)
+	if err != nil {
+		t.Fatal(err)
+	}
+	defer o.Cancel()
+	fmt.Printf("plan %s\nstates:\n%s", o.Plan, o.Sched.Stages.StatesString())
+	pending := []loop.Cmd{initCmd}
+	for step := 0; step < 200 && len(pending) > 0; step++ {
+		cmd := pending[0]
+		pending = pending[1:]
+		if cmd == nil {
+			continue
+		}
+		kind := world.Kind(cmd)
+		if kind == "CmdDownloadCurrentSegment" && len(pending) > 0 {
+			pending = append(pending, cmd)
+			continue
+		}
+		msg := cmd()
+		var msgs []loop.Msg
+		switch m := msg.(type) {
+		case loop.BatchMsg:
+			for _, cc := range m {
+				pending = append(pending, cc)
+			}
+			continue
+		case loop.SequenceMsg:
+			for _, cc := range m {
+				pending = append(pending, cc)
+			}
+			continue
+		default:
+			msgs = append(msgs, msg)
+		}
+		for _, m := range msgs {
+			if _, isQuit := m.(loop.QuitMsg); isQuit {
+				fmt.Printf("step %d QUIT %+v\n", step, m)
+				return
+			}
+			next := o.Sched.Update(m)
+			o.Sched.Stages.WaitAsyncWork()
+			fmt.Printf("step %d %s -> %T %+v\n%s", step, kind, m, m, o.Sched.Stages.StatesString())
+			if next != nil {
+				pending = append(pending, next)
+			}
+		}
+	}
+	fmt.Printf("stalled; pending %d\n", len(pending))
 }
